@@ -11,7 +11,11 @@ exactly the saved tasks whose type is requested and whose entry was written by t
 each once, equal (Python == and type-exactly at every depth), same cache_key, the stored result_meta,
 no results map / context — and running the returned tasks loads the stored results without executing.
 Correspondence: the same store and request through the Lean model of cached_tasks (`CTASKS`), compared
-in order (find_keys order) on normal form, result meta and key."""
+in order (find_keys order) on normal form, result meta and key.
+Class / enum-member resolution phase (harness/clsres.py): generated package trees (nested classes, Flag enums, shadowing
+submodules, missing dependencies), each imported in a fresh interpreter; the real deserialize_class / serialize_enum /
+deserialize_enum against the Lean model of the resolution (`CLSRES`); monitor: a class whose holder path no module
+shadows, and every enum value, comes back from its serialisation."""
 import collections
 import hashlib
 import json
@@ -22,6 +26,7 @@ import tempfile
 import time
 from datetime import datetime, timedelta
 
+import clsres
 import paramgen as pg
 import paramrun as pr
 
@@ -559,6 +564,10 @@ def run(ctx):
             v = [dict(what='D26 reproduction: ' + w, replay=dict(kind='corpus-D26')) for w in d26_regression()]
             return dict(evaluations=1, distinct_nontrivial=0, rule=RULE, samples=[], violations=v, disagreements=[],
                         distribution={}, assumptions=[], explanation='replay of the D26 regression (nested-class Enum parameters)')
+        if rp.get('kind') == 'clsres':
+            v, d, n = clsres.replay(rp)
+            return dict(evaluations=n, distinct_nontrivial=0, rule=RULE, samples=[], violations=v, disagreements=d,
+                        distribution={}, assumptions=[], explanation='replay of one class / enum-member resolution query on one package tree')
         if rp.get('kind') == 'reload':
             v, infra = reload_scenario(0)
             if infra:
@@ -578,6 +587,12 @@ def run(ctx):
     dist['corpus_D26_violated'] = int(bool(d26))
     for w in d26:
         viol.append(dict(what='D26 reproduction: ' + w, replay=dict(kind='corpus-D26')))
+    # class / enum-member resolution against its model (CLSRES), fresh interpreter per generated package tree
+    cr = clsres.phase(ctx['seed'], ctx['tier'], proof_ok=ctx['proof_ok'])
+    viol += cr['violations']
+    dis += cr['disagreements']
+    dist.update(cr['distribution'])
+    dist['clsres:wall_s'] = round(cr['wall'], 1)
     probe = f07_probe()
     dist['f07_input_class_probe: ' + probe] = 1
     known_here = any(k.get('property') == 'C09' and k.get('match') == pr.KNOWN_F07
@@ -594,7 +609,7 @@ def run(ctx):
     n_stores = 100 if ctx['tier'] == 'quick' else 800
     depth = 4 if ctx['tier'] == 'quick' else 6
     enlarged = False
-    evaluations = 0
+    evaluations = cr['evaluations']
     nontrivial = 0
     samples = []
     while True:
@@ -661,13 +676,18 @@ def run(ctx):
                         pass
             v['replay'] = dict(kind='overwrite', case=cur)
             break
-    viol.sort(key=lambda v: 0 if v['what'][:40] in done else 1)
+    viol.sort(key=lambda v: 0 if (v['what'][:40] in done or v['replay'].get('kind') == 'clsres') else 1)
     return dict(
-        evaluations=evaluations, distinct_nontrivial=nontrivial, rule=RULE, samples=samples, violations=viol, disagreements=dis[:50],
+        evaluations=evaluations, distinct_nontrivial=nontrivial, rule=RULE, samples=samples + [dict(clsres=x) for x in cr['samples'][:1]],
+        violations=viol, disagreements=dis[:50],
         distribution=dict(dist),
         assumptions=['types are used without inheritance (isinstance = same class)',
                      'entries are written by BaseCache.save with a start time and a duration (as run_tasks always does)',
                      'NaN and lone surrogates are not generated',
+                     'class resolution (CLSRES): import state is fresh (nothing of the package tree imported, no __init__ that binds a submodule '
+                     'over a class name); class strings with an empty first component, enum name parts other than member names / plain ASCII '
+                     'decimal numerals / letter words, Flag boundaries CONFORM and EJECT, negative flag values and multi-bit members with a bit '
+                     'that no single-bit member names are not generated',
                      'the input class of known finding F07 (a dict parameter with a truthy _is_task/_is_enum entry) is excluded from the generated stores, '
                      f'it is outside wfValue; probed separately: cached_tasks {probe}. It is reported as KNOWN-FINDING only if known_findings.json lists it for C09'],
-        explanation=f'{evaluations} cached_tasks calls over {dist["entries"]} stored entries in {time.time() - t0:.1f}s; every call also through the Lean model (CTASKS).')
+        explanation=f'{evaluations - cr["evaluations"]} cached_tasks calls over {dist["entries"]} stored entries in {time.time() - t0:.1f}s; every call also through the Lean model (CTASKS); {cr["evaluations"]} class / enum-member resolution queries on {dist.get("clsres:trees", 0)} generated package trees (CLSRES) in {cr["wall"]:.1f}s.')
